@@ -562,8 +562,12 @@ func runSession(alpha []sEvent, hist []int, o sessOpts) *sessResult {
 					s.Notify(frame)
 					isFrame = true
 					frameMAC = packet.CopyMAC(sMACs[ev.MAC])
-					if off := s.DHCPv4IPOffer(frameMAC); off.IsValid() {
-						frameHost = s.FindIP(off)
+					// the notification belongs to the address the DHCP message announced (looked up by that address, not
+					// through whatever offer the session remembers for the MAC)
+					if !sIPs[ev.IP].IsUnspecified() {
+						frameHost = s.FindIP(sIPs[ev.IP])
+					} else if off := s.DHCPv4IPOffer(frameMAC); off.IsValid() {
+						frameHost = s.FindIP(off) // a refused update: the frame is an ordinary DHCP frame of that MAC
 					}
 					if o.poison > 0 {
 						for i := range shared {
